@@ -25,7 +25,7 @@ def run(ctx):
     ctx.map(crashchecks.run_fault_variant, crashchecks.variant_cases(ctx, PROPERTY, 'fault'))
     # real errno injected into the n-th real syscall (strace): CPython's and SQLite's own error paths are exercised
     sys_names = None if not ctx.quick else ['add_object:new@', 'pack_all_loose:yes:clpp=1@', 'clean_storage@']
-    ctx.map(crashchecks.run_sys_variant, crashchecks.sys_cases(ctx, PROPERTY, 'sysfault', names=sys_names, limit=ctx.pick(5, 30)))
+    ctx.map(crashchecks.run_sys_variant, crashchecks.sys_cases(ctx, PROPERTY, 'sysfault', names=sys_names, limit=ctx.pick(5, 20)))
     ctx.extra['exhaustive_scope'] = 'every interposed I/O call of each listed variant/pre-state pair, one errno class per call kind (quick)'
 
 
